@@ -497,7 +497,7 @@ class Model:
         elif held == "ndarray":
             data = self.np.arr(dtype, src)
         else:
-            data = Obj("pylist", OrderedDict(dtype=Const(canonical_dtype(dtype)), term=Const(src)))
+            data = Obj("pylist", OrderedDict(dtype=Const(canonical_dtype(dtype)), term=Const(src), __plain_list__=Const(True)))
         return self.I.call(self.ctor("Variable"), [], OrderedDict(dims=py_const(dims), data=data, attrs=deep_copy(DictS(OrderedDict(list(ATTRS.items())[:3] + [("of", Const(name))])))))
 
     def pixel_array(self, url):
